@@ -8,7 +8,7 @@ D = [("D_OPTIONS", "DEBUG_OPTIONS"), ("D_OBJ", "DEBUG_OBJ"), ("D_CONF", "DEBUG_C
      ("D_STRINGS", "DEBUG_STRINGS"), ("D_PARSE", "DEBUG_PARSE")]
 hdr = []
 def unit(name, dbg, defs, fn):
-    hdr.append("/*@unit\nname: %s.DEBUG%s\ndebug: %s\ndefine: %s\nfuncs: %s\nbackend: sat\ntimeout: 120\n*/" % (name, dbg, dbg, ", ".join(defs), fn))
+    hdr.append("/*@unit\nname: %s.DEBUG%s\ndebug: %s\ndefine: %s\nfuncs: %s\nbackend: sat\ntimeout: 120\nnative: self\nnative_link: none\n*/" % (name, dbg, dbg, ", ".join(defs), fn))
 for dbg in DEBUGS:
     for m, lv in D:
         unit(m, dbg, ["K_DSTMT", "VM=%s" % m, "VL=%s" % lv, "VCT=%s" % lv], "w_dstmt")
